@@ -12,6 +12,9 @@
 
 #include <tl/optional.hpp>
 
+#include <type_traits>
+#include <utility>
+
 namespace manif {
 
 /**
@@ -34,6 +37,18 @@ struct LieGroupBase
   using Vector         = typename internal::traits<_Derived>::Vector;
 
   using OptJacobianRef = tl::optional<Eigen::Ref<Jacobian>>;
+
+  //! @brief Whether the underlying data is read-only (Eigen::Map<const X>).
+  static constexpr bool IsConstView = std::is_const<
+    typename std::remove_pointer<
+      decltype(std::declval<DataType&>().data())>::type>::value;
+
+  //! @brief What the non-const accessors return: a const view
+  //! only ever exposes its coefficients as const.
+  using DataTypeRef = typename std::conditional<
+    IsConstView, const DataType&, DataType&>::type;
+  using ScalarPtr = typename std::conditional<
+    IsConstView, const Scalar*, Scalar*>::type;
 
   template <typename _Scalar>
   using LieGroupTemplate = typename internal::traitscast<LieGroup, _Scalar>::cast;
@@ -75,13 +90,13 @@ public:
   _Derived& operator =(const Eigen::MatrixBase<_EigenDerived>& data);
 
   //! @brief Access the underlying data by const reference
-  DataType& coeffs();
+  DataTypeRef coeffs();
 
   //! @brief Access the underlying data by const reference
   const DataType& coeffs() const;
 
   //! @brief Access the underlying data by pointer
-  Scalar* data();
+  ScalarPtr data();
   //! @brief Access the underlying data by const pointer
   const Scalar* data() const;
 
@@ -347,6 +362,8 @@ template <typename _Derived>
 constexpr int LieGroupBase<_Derived>::DoF;
 template <typename _Derived>
 constexpr int LieGroupBase<_Derived>::RepSize;
+template <typename _Derived>
+constexpr bool LieGroupBase<_Derived>::IsConstView;
 
 template <typename _Derived>
 const typename LieGroupBase<_Derived>::OptJacobianRef
@@ -384,7 +401,7 @@ LieGroupBase<_Derived>::operator =(const Eigen::MatrixBase<_EigenDerived>& data)
 }
 
 template <typename _Derived>
-typename LieGroupBase<_Derived>::DataType&
+typename LieGroupBase<_Derived>::DataTypeRef
 LieGroupBase<_Derived>::coeffs()
 {
   return derived().coeffs();
@@ -398,7 +415,7 @@ LieGroupBase<_Derived>::coeffs() const
 }
 
 template <typename _Derived>
-typename LieGroupBase<_Derived>::Scalar*
+typename LieGroupBase<_Derived>::ScalarPtr
 LieGroupBase<_Derived>::data()
 {
   return derived().coeffs().data();
